@@ -28,6 +28,8 @@ func runC15(c *Ctx) {
 	c.Rule("C15.O4", "E4", "Parse: the append to the input cache is unreachable without the ReadLimit test", 1)
 	c.Rule("C15.O5", "E4", "Parse: errors ErrMessageTooLarge and ErrControlMessageTooBig pass WriteClose(1009, ...) before the return", 1)
 	c.Rule("C15.O6", "E8", "isMessageTooLarge(n) == (MessageLengthLimit > 0 && n > MessageLengthLimit)", 1)
+	c.Rule("C15.O7", "E5", "inside the package control frames are sent through WriteMessage, the path that refuses payloads over 125 bytes: no call of WriteFrame / writeFrame with a constant control opcode elsewhere", 1)
+	c15ControlSenders(c)
 
 	const limit = "websocket.commonFields.MessageLengthLimit"
 
@@ -366,4 +368,26 @@ func runC15(c *Ctx) {
 			c.Cond(bad == "", "C15.O6", key, c.FnPos(tl), "limit>0 && n>limit on the boundary grid; conditions only over limit and n", bad)
 		}
 	}
+}
+
+// c15ControlSenders: O7.
+func c15ControlSenders(c *Ctx) {
+	bad := ""
+	n := 0
+	for _, f := range c.pkgFuncs("websocket") {
+		outer := c.P.FuncName(ir.Outermost(f))
+		for _, cs := range c.P.Calls(f, func(name string, _ ir.CallSite) bool {
+			return name == "(*websocket.Conn).WriteFrame" || name == "(*websocket.Conn).writeFrame"
+		}) {
+			n++
+			op, isK := ir.ConstInt(cs.Common.Args[1])
+			if !isK || op < 8 {
+				continue
+			}
+			if outer != "(*websocket.Conn).WriteMessage" {
+				bad = outer + " sends a control frame (opcode " + fmt.Sprint(op) + ") through " + c.P.CalleeName(cs.Common) + " at " + c.Pos(cs.In) + ", which has no control-payload check: a payload over 125 bytes goes out instead of being refused"
+			}
+		}
+	}
+	c.Cond(bad == "", "C15.O7", "control frames are sent through WriteMessage", "", fmt.Sprintf("%d frame-writer call site(s), none with a constant control opcode outside WriteMessage", n), bad)
 }
